@@ -29,6 +29,9 @@ type specEnv struct {
 	locals  func(name string) (tval, bool)
 	hash    func(name string) (Term, bool)
 	resLoc  map[int]*Loc // results that are pointers to a cell allocated by the function
+	varLoc  map[string]*Loc // variables whose current value lives in memory (map-typed parameters)
+	noUnfold bool
+	bound   map[string]string // bound variable (SMT name) -> sort, for lemmas emitted under quantifiers
 }
 
 func (env *specEnv) clone() *specEnv {
@@ -282,6 +285,17 @@ func (e *enc) specX(env *specEnv, x SExpr) (tval, error) {
 			}
 			name := "q_" + v.Name
 			env2.vars[v.Name] = e.mkT(name, ty)
+			env2.vars["#q:"+v.Name] = tval{}
+			if env2.bound == nil {
+				env2.bound = map[string]string{}
+			} else {
+				nb := map[string]string{}
+				for k, v := range env2.bound {
+					nb[k] = v
+				}
+				env2.bound = nb
+			}
+			env2.bound[name] = e.so.of(ty)
 			binds = append(binds, fmt.Sprintf("(%s %s)", name, e.so.of(ty)))
 			guards = append(guards, e.wfConds(name, ty, 1)...)
 		}
@@ -304,6 +318,14 @@ func (e *enc) specX(env *specEnv, x SExpr) (tval, error) {
 				tv, err := e.specX(env2, t)
 				if err != nil {
 					return tval{}, err
+				}
+				// m[k] on a map is an ite (not allowed in patterns): use the value select it contains
+				if ix, ok := t.(*SIndex); ok && strings.HasPrefix(tv.t, "(ite ") {
+					mv, err1 := e.specX(env2, ix.X)
+					kv, err2 := e.specX(env2, ix.I)
+					if err1 == nil && err2 == nil && strings.HasPrefix(mv.sort, "Map_") {
+						tv.t = fmt.Sprintf("(select (val_%s %s) %s)", mv.sort, mv.t, kv.t)
+					}
 				}
 				ts = append(ts, tv.t)
 			}
@@ -346,6 +368,11 @@ func (e *enc) findPkg(from *types.Package, name string) *types.Package {
 }
 
 func (e *enc) specIdent(env *specEnv, name string) (tval, error) {
+	if l, ok := env.varLoc[name]; ok && l.ty != nil {
+		if _, shadow := env.vars["#q:"+name]; !shadow {
+			return e.mkT(e.readIn(env.mem, l), l.ty), nil
+		}
+	}
 	if v, ok := env.vars[name]; ok {
 		return v, nil
 	}
@@ -778,6 +805,11 @@ func (e *enc) specCall(env *specEnv, n *SCall) (tval, error) {
 	if len(ts) > 0 {
 		t = fmt.Sprintf("(sp_%s %s)", f.Name, strings.Join(ts, " "))
 	}
+	if f.Rec && !env.noUnfold {
+		if err := e.unfoldRec(env, f, as, t); err != nil {
+			return tval{}, err
+		}
+	}
 	return tval{t, sig.retTy, sig.ret}, nil
 }
 
@@ -833,7 +865,7 @@ func (e *enc) declareSpecFunc(f *SpecFunc) error {
 	}
 	sig.ret, sig.retTy = e.so.of(rty), rty
 	e.specSigs[f.Name] = sig
-	if f.Body == nil {
+	if f.Body == nil || f.Rec {
 		sig.decl = fmt.Sprintf("(declare-fun sp_%s (%s) %s)", f.Name, strings.Join(sig.params, " "), sig.ret)
 		return nil
 	}
@@ -909,4 +941,68 @@ func (e *enc) expandQuant(env *specEnv, n *SQuant) (tval, bool, error) {
 		op = "or"
 	}
 	return tval{"(" + op + " " + strings.Join(parts, " ") + ")", boolTy, "Bool"}, true, nil
+}
+
+// unfoldRec: one unfolding of a recursive spec function at this occurrence, added as a (definitional) assumption:
+//   F(args) == body[args]          (ground occurrence)
+//   forall bound :: {F(args)} F(args) == body[args]   (occurrence under quantifiers)
+// Inner recursive calls are not unfolded again. Sound because checkRec guarantees the definition is well founded.
+func (e *enc) unfoldRec(env *specEnv, f *SpecFunc, as []tval, app Term) error {
+	if e.unfolded == nil {
+		e.unfolded = map[string]bool{}
+	}
+	if e.unfolded[app] {
+		return nil
+	}
+	e.unfolded[app] = true
+	pkg := e.pkgByPath(f.PkgPath)
+	env2 := &specEnv{e: e, pkg: pkg, vars: map[string]tval{}, mem: map[string]Term{}, noUnfold: true, bound: env.bound}
+	for i, p := range f.Params {
+		env2.vars[p.Name] = as[i]
+	}
+	body, err := e.specX(env2, f.Body)
+	if err != nil {
+		return fmt.Errorf("unfolding %s: %v", f.Name, err)
+	}
+	eq := fmt.Sprintf("(= %s %s)", app, body.t)
+	var binds []string
+	for _, name := range sortedKeys(env.bound) {
+		if containsIdent(app, name) || containsIdent(body.t, name) {
+			binds = append(binds, fmt.Sprintf("(%s %s)", name, env.bound[name]))
+		}
+	}
+	if len(binds) > 0 {
+		eq = fmt.Sprintf("(forall (%s) (! %s :pattern (%s)))", strings.Join(binds, " "), eq, app)
+	}
+	if boundVarRe.MatchString(strings.ReplaceAll(eq, "q_", "Q_")) && len(binds) == 0 {
+		// occurrence inside a spec function body / axiom (parameters a_*): no lemma here, it is emitted where the function is applied
+		return nil
+	}
+	if len(binds) == 0 && boundVarRe.MatchString(eq) {
+		return nil
+	}
+	e.assume(eq)
+	return nil
+}
+
+func containsIdent(t, name string) bool {
+	i := 0
+	for {
+		j := strings.Index(t[i:], name)
+		if j < 0 {
+			return false
+		}
+		j += i
+		end := j + len(name)
+		okL := j == 0 || !isIdentChar(t[j-1])
+		okR := end >= len(t) || !isIdentChar(t[end])
+		if okL && okR {
+			return true
+		}
+		i = end
+	}
+}
+
+func isIdentChar(c byte) bool {
+	return c == '_' || c >= '0' && c <= '9' || c >= 'a' && c <= 'z' || c >= 'A' && c <= 'Z' || c == '.' || c == '!'
 }
